@@ -57,6 +57,8 @@ type Net struct {
 	Root    string
 	ownRoot bool
 	Stats   map[string]int
+	// Filter, if set, restricts what correct holders may forward (scripted attacks use it to model delays).
+	Filter func(from, to *Node, m consensus.Message) bool
 }
 
 // Monitor observes node traces (online) and network-level events.
@@ -370,6 +372,9 @@ func (net *Net) OffersTo(j *Node, all bool) []offer {
 		}
 		frs := i.CS.GetRoundState()
 		for _, m := range offersFromTo(i, j, frs, trs) {
+			if net.Filter != nil && !net.Filter(i, j, m) {
+				continue
+			}
 			out = append(out, offer{Msg: m, From: i.Idx})
 		}
 	}
@@ -404,12 +409,17 @@ func (net *Net) deliver(j *Node, o offer) {
 // lacks, until nobody lacks anything (gossip reached a fixpoint). Partitions are
 // ignored (the synchronous phase reconnects everybody). Returns the number of
 // deliveries.
-func (net *Net) Fixpoint(maxIter int) (int, bool) {
+func (net *Net) Fixpoint(maxIter int) (int, bool) { return net.fixpoint(maxIter, true) }
+
+// FixpointPartitioned is Fixpoint that respects the current partition.
+func (net *Net) FixpointPartitioned(maxIter int) (int, bool) { return net.fixpoint(maxIter, false) }
+
+func (net *Net) fixpoint(maxIter int, all bool) (int, bool) {
 	total := 0
 	for iter := 0; iter < maxIter; iter++ {
 		progress := false
 		for _, j := range net.Alive() {
-			offs := net.OffersTo(j, true)
+			offs := net.OffersTo(j, all)
 			if len(offs) == 0 {
 				continue
 			}
